@@ -27,8 +27,8 @@ ASSUMPTIONS = [
 
 # family -> (detector, parameter, ordered values from loose to strict)
 FAMILIES = {
-    "ADWIN.delta": ("ADWIN", "delta", [1.0, 0.3, 0.05, 0.002, 1e-6]),
-    "ADWINAccuracy.delta": ("ADWINAccuracy", "delta", [1.0, 0.3, 0.05, 0.002]),
+    "ADWIN.delta": ("ADWIN", "delta", [1.0, 0.6, 0.3, 0.1, 0.05, 0.01, 0.002, 1e-4, 1e-6]),
+    "ADWINAccuracy.delta": ("ADWINAccuracy", "delta", [1.0, 0.6, 0.3, 0.1, 0.05, 0.01, 0.002]),
     "CUSUM.threshold": ("CUSUM", "threshold", [1.0, 2.0, 5.0, 12.0]),
     "PageHinkley.threshold": ("PageHinkley", "threshold", [0.05, 0.2, 1.0, 4.0]),
     "DDM.drift_scale": ("DDM", "drift_scale", [0.0, 2.0, 2.5, 3.0, 4.0]),
@@ -104,7 +104,7 @@ def cases(tier, seed):
     out = []
     for fam in FAMILIES:
         cost = 4 if fam.startswith(("Kdq", "Linear", "NNDVI")) else 1
-        for i in range(n * 4 if fam.startswith(("HDDDM", "CDBD")) else (n * 4 if fam.startswith("NNDVI") else (n * 3 if fam.startswith("ADWIN") else (n * 2 if fam.startswith(("Linear", "KdqTreeBatch", "DDM", "PageHinkley", "CUSUM")) else n)))):
+        for i in range(n * 4 if fam.startswith(("HDDDM", "CDBD")) else (n * 4 if fam.startswith("NNDVI") else (n * 6 if fam.startswith("ADWIN") else (n * 2 if fam.startswith(("Linear", "KdqTreeBatch", "DDM", "PageHinkley", "CUSUM")) else n)))):
             out.append({"id": "drift/%s/%d" % (fam, i), "kind": "drift", "fam": fam, "seed": [seed, 17, i], "cost": cost})
     for fam in WARN:
         for i in range(n):
